@@ -409,20 +409,28 @@ class Unit:
         n = 0
         while True:
             bm = mask(body)
-            mt = re.search(r'([A-Za-z_][\w\.]*)\.retain\(\|([^|]*)\|\s*\{', bm)
+            mt = re.search(r'([A-Za-z_][\w\.]*)\.retain\(\|([^|]*)\|\s*', bm)
             if not mt:
                 break
-            bo = mt.end() - 1
-            bc = match_close(bm, bo)
-            tail = re.match(r'\s*\)\s*;', bm[bc + 1:])
+            po = bm.index('(', mt.end(1))
+            pc = match_close(bm, po)
+            if bm[mt.end()] == '{':
+                bo = mt.end()
+                bc = match_close(bm, bo)
+                if bm[bc + 1:pc].strip():
+                    raise Undecided('%s: retain closure body is not a single block' % rec.name)
+            else:
+                # expression closure `|x| EXPR`: the expression runs to the closing parenthesis of retain(
+                bo, bc = mt.end(), pc - 1
+            tail = re.match(r'\s*;', bm[pc + 1:])
             if not tail:
                 raise Undecided('%s: retain call not in statement position' % rec.name)
             recv, pat = body[mt.start(1):mt.end(1)], body[mt.start(2):mt.end(2)].strip()
             k = n + 1
             exp = ('let vold{k} = vretain_take(&mut {r});\n let mut vi{k}: usize = 0;\n while vi{k} < vretain_len(&vold{k})\n {{\n'
-                   ' let {p} = vretain_at(&vold{k}, vi{k});\n let vkeep{k} = {b};\n /*VXRETAIN-STEP{k}*/\n'
+                   ' let {p} = vretain_at(&vold{k}, vi{k});\n let vkeep{k} = {{ {b} }};\n /*VXRETAIN-STEP{k}*/\n'
                    ' if vkeep{k} {{ vretain_keep(&mut {r}, &vold{k}, vi{k}); }}\n vi{k} += 1;\n }}\n').format(k=k, r=recv, p=pat, b=body[bo:bc + 1])
-            body = body[:mt.start()] + exp + body[bc + 1 + tail.end():]
+            body = body[:mt.start()] + exp + body[pc + 1 + tail.end():]
             n += 1
         if n == 0:
             raise Undecided('anchor lost in %s: no `.retain(|..| {..});` call to expand' % rec.name)
@@ -501,7 +509,7 @@ class Unit:
                     rule, rest = a.split(None, 1)
                     rx, repl = parse_bt(rest)
                     sigsubs.append((rule, rx, repl, False))
-                elif c in ('spec', 'loop', 'loop?', 'before', 'after', 'bodystart', 'cancelall'):
+                elif c in ('spec', 'loop', 'loop?', 'before', 'after', 'before?', 'after?', 'bodystart', 'cancelall'):
                     cur = (c, a, [])
                     sections.append(cur)
                 else:
@@ -596,9 +604,11 @@ class Unit:
                 rx, nth = mm.group(1), int(mm.group(2) or 1)
                 ms = list(re.finditer(rx, body_new))
                 if len(ms) < nth:
+                    if kind.endswith('?'):
+                        continue
                     raise Undecided('anchor lost in %s: `%s` #%d not found' % (rec.name, rx, nth))
-                pos = ms[nth - 1].start() if kind == 'before' else ms[nth - 1].end()
-                inserts.append((pos, lines, kind))
+                pos = ms[nth - 1].start() if kind.startswith('before') else ms[nth - 1].end()
+                inserts.append((pos, lines, kind.rstrip('?')))
         fname = rec.name
         hdr = implhdr if implhdr else ('impl %s' % ty if ty else None)
         if stub_from:
